@@ -164,23 +164,30 @@ Proof. exact file_dict_name_ns. Qed.
 Check C10_file_dict_name_flat : forall fp x, In x (file_dict_name fp) -> x <> slash.
 Print Assumptions C10_file_dict_name_flat.
 
-(* HarperAddToFileDict for ANY document whose URL has a file path with at least one component, fileDictPath being an
-   absolute path without `..` other than the root: save_dict opens `<dir>/<name>.tmp` and renames it onto
-   `<dir>/<name>`, both directly inside the configured directory, and the monitor accepts exactly that *)
-Theorem C10_file_dict_save_inside : forall c filedir fp,
+(* HarperAddToFileDict for ANY document URI (fp = Url::to_file_path, None when it fails), fileDictPath being an absolute
+   path without `..` other than the root: whenever save_dict is reached at all it opens `<dir>/<name>.tmp` and renames
+   it onto `<dir>/<name>`, <name> the non-empty slash-free file-dictionary name — both directly inside the configured
+   directory, and the monitor accepts exactly that.  Full strength since 08b9da8 (no hypothesis on the name). *)
+Theorem C10_file_dict_save_inside : forall c filedir fp o s d,
   comps filedir <> [] -> (forall x, In x (comps filedir) -> x <> dotdot) -> m_filedir c = render (comps filedir) ->
-  file_dict_name fp <> [] ->
-  let d := m_filedir c ++ slash :: file_dict_name fp in
-  file_dict_plan filedir (Some fp) = Some (d ++ tmp_suffix, d ++ tmp_suffix, d) /\
-  path_allowed c (d ++ tmp_suffix) = true /\ path_allowed c d = true /\ rename_allowed c (d ++ tmp_suffix) d = true.
+  file_dict_plan filedir fp = Some (o, s, d) ->
+  (exists p, fp = Some p /\ file_dict_name p <> [] /\ d = m_filedir c ++ slash :: file_dict_name p /\
+             o = d ++ tmp_suffix /\ s = o) /\
+  path_allowed c o = true /\ path_allowed c d = true /\ rename_allowed c s d = true.
 Proof. exact file_dict_save_inside. Qed.
-Check C10_file_dict_save_inside : forall c filedir fp,
+Check C10_file_dict_save_inside : forall c filedir fp o s d,
   comps filedir <> [] -> (forall x, In x (comps filedir) -> x <> dotdot) -> m_filedir c = render (comps filedir) ->
-  file_dict_name fp <> [] ->
-  let d := m_filedir c ++ slash :: file_dict_name fp in
-  file_dict_plan filedir (Some fp) = Some (d ++ tmp_suffix, d ++ tmp_suffix, d) /\
-  path_allowed c (d ++ tmp_suffix) = true /\ path_allowed c d = true /\ rename_allowed c (d ++ tmp_suffix) d = true.
+  file_dict_plan filedir fp = Some (o, s, d) ->
+  (exists p, fp = Some p /\ file_dict_name p <> [] /\ d = m_filedir c ++ slash :: file_dict_name p /\
+             o = d ++ tmp_suffix /\ s = o) /\
+  path_allowed c o = true /\ path_allowed c d = true /\ rename_allowed c s d = true.
 Print Assumptions C10_file_dict_save_inside.
+
+(* a URL whose file path has no component (`file:///`) has no file dictionary: nothing is written (08b9da8, was FC10a) *)
+Theorem C10_file_dict_no_name_nothing : forall filedir p, file_dict_name p = [] -> file_dict_plan filedir (Some p) = None.
+Proof. exact file_dict_no_name_nothing. Qed.
+Check C10_file_dict_no_name_nothing : forall filedir p, file_dict_name p = [] -> file_dict_plan filedir (Some p) = None.
+Print Assumptions C10_file_dict_no_name_nothing.
 
 (* HarperAddToUserDict, userDictPath an absolute path without `..` that names a file: `<user>.tmp`, renamed onto `<user>` *)
 Theorem C10_user_dict_save_inside : forall c user,
@@ -195,28 +202,6 @@ Check C10_user_dict_save_inside : forall c user,
   path_allowed c (m_user c ++ tmp_suffix) = true /\ path_allowed c (m_user c) = true /\
   rename_allowed c (m_user c ++ tmp_suffix) (m_user c) = true.
 Print Assumptions C10_user_dict_save_inside.
-
-(* FINDING FC10a (open; fixes/FC10a-empty-file-dict-name.diff): the hypothesis `file_dict_name fp <> []` above cannot be
-   dropped.  For the document URI `file:///` (file path "/", no component) the name is empty, file_dict_path.join("")
-   is "<dir>/", its file name is the directory's own name, and save_dict creates `<dir>.tmp` NEXT TO the configured
-   file-dictionary directory (then fails to rename it onto "<dir>/"): a file outside every configured location.
-   Replayed on the implementation by corpus/C10/fc10a_root_uri.json. *)
-Theorem C10_file_dict_empty_name_refuted :
-  let c := mkcfg (bytes_of_string "/s/cfg/user.txt") (bytes_of_string "/s/fd") (bytes_of_string "/s/data/stats.txt") [] in
-  exists fp, file_dict_name fp = [] /\
-    file_dict_plan (m_filedir c) (Some fp) =
-      Some (bytes_of_string "/s/fd.tmp", bytes_of_string "/s/fd.tmp", bytes_of_string "/s/fd") /\
-    judge c (EvOpen true (bytes_of_string "/s/fd.tmp")) = VWrite /\
-    judge c (EvRename (bytes_of_string "/s/fd.tmp") (bytes_of_string "/s/fd")) = VWrite.
-Proof. exact file_dict_empty_name_refuted. Qed.
-Check C10_file_dict_empty_name_refuted :
-  let c := mkcfg (bytes_of_string "/s/cfg/user.txt") (bytes_of_string "/s/fd") (bytes_of_string "/s/data/stats.txt") [] in
-  exists fp, file_dict_name fp = [] /\
-    file_dict_plan (m_filedir c) (Some fp) =
-      Some (bytes_of_string "/s/fd.tmp", bytes_of_string "/s/fd.tmp", bytes_of_string "/s/fd") /\
-    judge c (EvOpen true (bytes_of_string "/s/fd.tmp")) = VWrite /\
-    judge c (EvRename (bytes_of_string "/s/fd.tmp") (bytes_of_string "/s/fd")) = VWrite.
-Print Assumptions C10_file_dict_empty_name_refuted.
 
 (* ---- non-vacuity ---- *)
 Example C10_reach_nontrivial :
@@ -296,6 +281,20 @@ Proof.
   - vm_compute. reflexivity.
 Qed.
 
+(* HISTORY (FC10a, fixed by 08b9da8) — over the OLD definition file_dict_plan_old, which joined the empty name too: for
+   the document URI `file:///` save_dict created `<dir>.tmp` NEXT TO the file-dictionary directory and failed to rename
+   it onto "<dir>/"; the monitor rejects both calls.  The current model (last conjunct) writes nothing.  The input is
+   replayed on the implementation by corpus/C10/fc10a_root_uri.json and must pass. *)
+Example C10_file_dict_empty_name_old_refuted :
+  let c := mkcfg (bytes_of_string "/s/cfg/user.txt") (bytes_of_string "/s/fd") (bytes_of_string "/s/data/stats.txt") [] in
+  exists fp, file_dict_name fp = [] /\
+    file_dict_plan_old (m_filedir c) (Some fp) =
+      Some (bytes_of_string "/s/fd.tmp", bytes_of_string "/s/fd.tmp", bytes_of_string "/s/fd") /\
+    judge c (EvOpen true (bytes_of_string "/s/fd.tmp")) = VWrite /\
+    judge c (EvRename (bytes_of_string "/s/fd.tmp") (bytes_of_string "/s/fd")) = VWrite /\
+    file_dict_plan (m_filedir c) (Some fp) = None.
+Proof. exact file_dict_empty_name_old_refuted. Qed.
+
 (* the hypotheses of the save theorems are satisfiable (a fileDictPath with a trailing slash, a userDictPath with `//`
    and `/./`, a document path with `..` and non-ASCII), and what PathBuf::join would do with an absolute or `..` name
    if file_dict_name ever produced one (the seeded change c10-2): the write leaves the configured directory *)
@@ -304,6 +303,8 @@ Example C10_save_plan_examples :
   file_dict_name (b "/home/u/proj/../dö c.md") = b "home%u%proj%..%dö c.md%" /\
   file_dict_plan (b "/s/fd/") (Some (b "/home/u/a.md")) = Some (b "/s/fd/home%u%a.md%.tmp", b "/s/fd/home%u%a.md%.tmp", b "/s/fd/home%u%a.md%") /\
   file_dict_plan (b "/s/fd") None = None /\
+  file_dict_plan (b "/s/fd") (Some (b "/")) = None /\
+  file_dict_plan (b "/s/fd") (Some (b "/.//")) = None /\
   user_dict_plan (b "/s//cfg/./user.txt") = (b "/s/cfg/user.txt.tmp", b "/s/cfg/user.txt.tmp", b "/s/cfg/user.txt") /\
   save_plan (join_comps (b "/s/fd") (b "/home/u/draft.md%")) = (b "/home/u/draft.md%.tmp", b "/home/u/draft.md%.tmp", b "/home/u/draft.md%") /\
   save_plan (join_comps (b "/s/fd") (b "../../x%")) = (b "/x%.tmp", b "/x%.tmp", b "/x%").
